@@ -39,6 +39,20 @@ def clause_author_guard(prog, rep):
             has_cred = any(og.has_call(lambda x: x.name == "credential" and last_seg(x.self_adt) == "ProcessedMessage") for og in ogs)
             if has_rumor and has_cred:
                 wired = True
+        # copy provenance: the credential handed to the guard IS the one authenticated by the MLS layer for this message
+        # (not, e.g., whoever currently occupies the sender's leaf in the ratchet tree)
+        exact = False
+        for c in gcs:
+            for a in c.args:
+                if "p" not in a or "Credential" not in f.locals[a["p"][0]]:
+                    continue
+                pr = A.producers(prog, f, a["p"][0], scope=core)
+                names = sorted(set("%s::%s" % (last_seg(x.self_adt), x.name) for x in pr["calls"]))
+                exact = names == ["ProcessedMessage::credential"]
+                rep.check(exact, "author-bound", "MDK::process_message/Message/authenticated-credential",
+                          "the credential checked against the rumor author is exactly ProcessedMessage::credential()",
+                          "the credential checked against the rumor author is produced by %s, not only by the MLS-authenticated "
+                          "ProcessedMessage::credential(): a delayed message can be attributed to whoever holds the sender's leaf now" % names, c.loc())
         rep.check(wired, "author-bound", "MDK::process_message/Message/guard-wiring",
                   "the guard receives the rumor's pubkey and the credential of the MLS-authenticated sender",
                   "the author guard is not fed with (rumor.pubkey, ProcessedMessage::credential())", f.loc())
